@@ -243,6 +243,8 @@ class Intervals:
         self._ptr_cache = {}
         self._uses = None
         self._written = None
+        self._canon = None
+        self._mutb = None
         self.thresholds = self._collect_thresholds()
         self._run()
 
@@ -304,6 +306,92 @@ class Intervals:
             return not ds
         return len(ds) == 1
 
+    PURE_CRATES = ("read_fonts::", "font_types::", "<read_fonts::", "<font_types::")
+
+    def _pure_call_canon(self):
+        """locals holding the result of the *same* pure reader call on the same, never reassigned arguments denote the
+        same value (read-fonts / font-types have no state and observe nothing but their arguments: C01-f): map each such
+        local to the first one.  Only shared-reference results (slices, tables) are unified."""
+        if self._canon is not None:
+            return self._canon
+        self._canon = {}
+        b = self.body
+        seen = {}
+        for bb, t in b.calls():
+            if t.dest[1] or not t.callee.startswith(self.PURE_CRATES):
+                continue
+            dty = b.locals[t.dest[0]][0]
+            if not dty.startswith("&") or dty.startswith("&mut"):
+                continue
+            if b.single_def(t.dest[0]) is None:
+                continue
+            key = [t.callee, t.d.get("cargs")]
+            ok = True
+            for a, aty in zip(t.args, t.d.get("atys") or []):
+                if aty.startswith("&mut") or aty.startswith("*mut"):
+                    ok = False
+                    break
+                if a[0] == "k":
+                    key.append(("k", repr(a[1:3])))
+                    continue
+                r = self._stable_arg(a)
+                if r is None:
+                    ok = False
+                    break
+                key.append(r)
+            if not ok:
+                continue
+            key = tuple(key)
+            if key in seen:
+                self._canon[t.dest[0]] = seen[key]
+            else:
+                seen[key] = t.dest[0]
+        return self._canon
+
+    def _mut_borrowed_locals(self):
+        if self._mutb is None:
+            s_ = set()
+            for _, _, st in self.body.stmts():
+                if st[0] == "A" and st[2][0] in ("ref", "raw") and ((st[2][1] == "mut") if st[2][0] == "ref" else ("Mut" in str(st[2][1]))):
+                    s_.add(st[2][2][0])
+            self._mutb = s_
+        return self._mutb
+
+    def _stable_arg(self, op, depth=0):
+        """a description of an argument that denotes the same value wherever it is evaluated: a never-reassigned local, a
+        copy of one, or a shared borrow / field path of one"""
+        p = op[1]
+        l = p[0]
+        b = self.body
+        if depth > 6:
+            return None
+        if 0 < l <= b.argc:
+            # only parameters that cannot be mutated during the call: by-value data or shared references (what a
+            # `&mut` parameter points to may change between two evaluations)
+            ty = b.locals[l][0]
+            if ty.startswith("&mut") or ty.startswith("*mut") or "&mut" in ty:
+                return None
+            if l in self._mut_borrowed_locals():
+                return None
+            return ("param", l, repr(p[1])) if not b.defs().get(l) else None
+        sd = b.single_def(l)
+        if sd is None or isinstance(sd[2], Term):
+            return None
+        if p[1]:
+            return None
+        rv = sd[2]
+        if rv[0] == "use" and rv[1][0] in ("c", "m"):
+            return self._stable_arg(rv[1], depth + 1)
+        if rv[0] == "ref" and rv[1] != "mut":
+            inner = rv[2]
+            base = self._stable_arg(["c", [inner[0], []]], depth + 1)
+            if base is None:
+                return None
+            if any(not (e == "*" or (isinstance(e, list) and e[0] in ("f", "d"))) for e in inner[1]):
+                return None
+            return ("ref", base, repr(inner[1]))
+        return None
+
     def _ptr_target(self, l, depth=0):
         """for a pointer/reference local: (root, path, exact) of the place it points to, or None.
         Followed only through single-assignment temporaries."""
@@ -312,6 +400,11 @@ class Intervals:
         self._ptr_cache[l] = None
         b = self.body
         res = None
+        canon = self._pure_call_canon().get(l)
+        if canon is not None and canon != l:
+            res = (canon, ("*",), True)
+            self._ptr_cache[l] = res
+            return res
         if depth < 20 and not (0 < l <= b.argc):
             sd = b.single_def(l)
             if sd is not None:
